@@ -427,6 +427,14 @@ def x_is(self, st, a, b):
     return vkey(a) == vkey(b)
 
 
+def x_key_eq(self, st, k, key):
+    """dict / set key identity: hash first.  An Enum member whose __eq__ accepts its name still hashes differently
+    from the name string, so the two are different keys."""
+    if (isinstance(k, EnumVal) and isinstance(key, str)) or (isinstance(key, EnumVal) and isinstance(k, str)):
+        return False
+    return self.x_eq(st, k, key)
+
+
 def x_eq(self, st, a, b):
     if isinstance(a, Top) or isinstance(b, Top):
         t, o = (a, b) if isinstance(a, Top) else (b, a)
@@ -553,7 +561,16 @@ def x_in(self, st, a, b, node):
         if o.kind in ("list", "set") and o.items is not None:
             b = tuple(o.items)
         elif o.kind == "dict" and o.items is not None:
-            b = tuple(k for k, _ in o.items)
+            if isinstance(a, Top):
+                return Top("in:" + a.tag, a.input)
+            unknown = False
+            for k, _ in o.items:
+                r = self.x_key_eq(st, k, a)
+                if r is True:
+                    return True
+                if isinstance(r, Top):
+                    unknown = r
+            return unknown if unknown else False
         elif o.kind == "dict":
             if ("k", vkey(a)) in o.fields:
                 return True
@@ -964,7 +981,7 @@ def get_item(self, st, base, idx, node):
         if o.kind == "dict":
             if o.items is not None:
                 for k, v in o.items:
-                    r = self.x_eq(st, k, idx)
+                    r = self.x_key_eq(st, k, idx)
                     if r is True:
                         return [(st, "val", v)]
                 if isinstance(idx, Top):
